@@ -70,8 +70,17 @@ Lt(a, b) == CASE IsNum(a) -> NumOf(a) * DenOf(b) < NumOf(b) * DenOf(a)
               [] a[1] = "b" -> (~a[2]) /\ b[2]
               [] a[1] \in {"t", "d", "tod"} -> SeqLt(Tail(a), Tail(b))
               [] a[1] = "dur" -> a[2] < b[2]
+\* A decimal literal too large for TLC's integers (1e19): only its sign is kept.  It compares above (below) every
+\* number the generators produce; two of them compare by sign.  No arithmetic on it (the generators do none).
+IsHuge(v) == v[1] = "huge"
+HugeSign(v) == IF IsHuge(v) THEN v[2] ELSE 0
 Compare(o, a, b) ==
   IF a = NULL \/ b = NULL THEN NULL
+  ELSE IF IsHuge(a) \/ IsHuge(b) THEN
+       LET same == IsHuge(a) /\ IsHuge(b) /\ a[2] = b[2]
+           lt == HugeSign(a) < HugeSign(b)  gt == HugeSign(b) < HugeSign(a) IN
+       BV(CASE o = "eq" -> same [] o = "ne" -> ~same [] o = "lt" -> lt [] o = "le" -> lt \/ same
+            [] o = "gt" -> gt [] o = "ge" -> gt \/ same)
   ELSE LET same == IF IsNum(a) THEN NumOf(a) * DenOf(b) = NumOf(b) * DenOf(a) ELSE a = b IN
        BV(CASE o = "eq" -> same [] o = "ne" -> ~same
             [] o = "lt" -> Lt(a, b) [] o = "le" -> Lt(a, b) \/ same
@@ -132,8 +141,12 @@ DecimalOf(x) ==
       eAbs == IF ePos > Len(x) THEN 0 ELSE DecDigits(x, ePos + 1, Len(x), 0)
       exp  == (IF eNeg THEN -eAbs ELSE eAbs) - frac
       sgn  == IF neg THEN -1 ELSE 1
-  IN IF exp >= 0 THEN NormQ(sgn * man * Pow10(exp), 1) ELSE NormQ(sgn * man, Pow10(-exp))
+  IN IF man = 0 THEN QV(0, 1)
+     ELSE IF exp >= 9 THEN <<"huge", sgn>>
+     ELSE IF exp >= 0 THEN NormQ(sgn * man * Pow10(exp), 1) ELSE NormQ(sgn * man, Pow10(-exp))
 ASSUME DecimalOf(StrCps("2.0")) = QV(2, 1) /\ DecimalOf(StrCps("-0.5")) = QV(-1, 2) /\ DecimalOf(StrCps("2.5e-1")) = QV(1, 4)
+ASSUME DecimalOf(StrCps("1e19")) = <<"huge", 1>> /\ DecimalOf(StrCps("-1.5E19")) = <<"huge", -1>> /\ DecimalOf(StrCps("0e19")) = QV(0, 1)
+ASSUME Compare("lt", IV(5), <<"huge", 1>>) = BV(TRUE) /\ Compare("ge", QV(1, 2), <<"huge", -1>>) = BV(TRUE) /\ Compare("eq", IV(0), <<"huge", 1>>) = BV(FALSE)
 ASSUME DecimalOf(StrCps("1e-7")) = QV(1, 10000000) /\ DecimalOf(StrCps("1E3")) = QV(1000, 1) /\ DecimalOf(StrCps("1.5e+1")) = QV(15, 1)
 LitVal(k, v) == CASE k = "Null" -> NULL
                   [] k = "Integer" -> IV(v)
